@@ -953,6 +953,9 @@ REP_NAMES = ["bin:+", "bin:-", "bin:*", "bin:/", "bin:**", "bin:~", "cmp:==", "c
              "f:abs", "f:join(e)", "t:defined", "t:odd!", "t:in bare", "t:divisibleby paren", "t:sameas! bare", "list2",
              "tuple1", "dictv"]
 FORMS_REP = [FORM_BY_NAME[n] for n in REP_NAMES]
+CHAIN_REPS = ("chain:<:<", "chain:==:in", "chain:in:notin", "chain:<=:>", "chain:!=:==", "chain:notin:<", "chain:>:>=",
+              "chain:in:in")
+FORMS_FEW_CHAINS = [f for f in FORMS if f.klass != "chain" or f.name in CHAIN_REPS]
 REP_SMALL_NAMES = ["bin:+", "bin:*", "bin:**", "bin:~", "cmp:<", "cmp:in", "and", "or", "un:-", "not", "cond", "cond-",
                    "attr:k", "item:k", "call:(e)", "f:default(z)", "f:abs", "t:defined", "t:odd", "t:in bare", "list1"]
 FORMS_REP_SMALL = [FORM_BY_NAME[n] for n in REP_SMALL_NAMES]
@@ -1163,4 +1166,7 @@ LEAF_VECTORS = [
     [Name("x"), Name("y"), Int(2), Name("u"), Str("ab")],
     [Str("a"), List(Int(1), Int(2)), Name("x"), Float(1.5), NONE, Name("y")],
     [Name("o"), Name("d"), Str("k"), Name("f"), TRUE, Tuple(Int(1), Int(2)), Str("")],
+    [Int(2), Name("x"), Int(1), Name("y"), Int(3)],  # constants and variables mixed (partial folding)
+    [Name("x"), Int(2), Name("y"), Int(1), Name("x")],
 ]
+MIXED_VECTORS = (4, 5)
